@@ -76,9 +76,17 @@ CLAIMED = {
             "zero-value non-target that stays open (known finding) and of a target whose quantity is below TOL. Correspondence: the real Rebalance call re-executed by the model from "
             "the real pre-state on random prior portfolios; monitor: target weights, closed non-targets, cash remainder, sub-strategy spreading, n-step variant.",
             "DESIGN 7 C06"),
-    "C04": ("Run-level theorems are in preparation (prefix-determinacy of the engine update and of the backtest loop); the per-algo no-look-ahead theorems already audited are "
-            "Bt.C14 *_no_lookahead (7 selectors) and Bt.C15 window_prefix_determined / window_exact. This check decides the property by the metamorphic correspondence between two "
-            "executions of the real code: every supplied value dated after a random cut is perturbed and all node histories up to the cut must be bit-identical.",
+    "C04": ("Theorems (Bt.C04, ~60) over the engine and run-level model: truncating every supplied data column after row t commutes with every engine operation executed at a clock <= t "
+            "(`secUpdate_trunc` ... `updRoot_trunc` incl. the bankruptcy branch, all seven public operations and every getter's refresh under the clock invariant `ClockLE`, which every public "
+            "call preserves), hence with the loop of Backtest.run over dates <= t for every causal algo function (`btLoop_trunc`, `btRun_trunc`); `Causal` is closed under identity, sequencing, "
+            "every public operation with arguments computed from the data-free part of the world, the Rebalance model, and algos that use supplied frames only through prefix-determined results "
+            "(`causalWith_of_factor`; worked instances SelectAll->WeighEqually->Rebalance via C14 `selectAll_no_lookahead` and WeighInvVol(lookback, lag)->Rebalance via C15 "
+            "`window_prefix_determined`); every public call made at clocks in P writes recorded rows only at indices in P (`public_rows_frozen`); main theorem `backtest_causal`: two data sets "
+            "agreeing on rows <= t, any later data, causal public algos -> all 14 recorded row lists of every node agree at every index <= t (also for two algo functions / two signal frames "
+            "agreeing up to t, and: if the prefix raises on one data set it raises the same error on the other); Lean witness that an algo reading row d+1 is not causal. "
+            "Correspondence: the model is handed the data TRUNCATED at the clock of each step and must reproduce the real post-state (run-steps and btday protocols on generated backtests, "
+            "nested and fixed-income), the window protocols of C14/C15, whole-run. Deciding monitor: metamorphic twin runs of the real code - every supplied value dated after a random cut "
+            "perturbed (NaN, x10, flip, random, dropped rows), all node histories up to the cut bit-identical, over every stock algo of the generator incl. those not modelled in Lean.",
             "DESIGN 7 C04"),
     "C11": ("11 theorems about the run-level model (Bt/Engine/Backtest.lean): Backtest.run with its has_run guard is idempotent (`run_idem`), a finished backtest is never "
             "touched again, the flag is set also when the run raised, constructor arguments are kept; for every session - any number of backtests deep-copied from one template, any "
